@@ -68,5 +68,10 @@ def gen_jobs(ctx, n, small=True, escape_frac=0.3, kicks_frac=0.25, fbh_frac=0.15
             nseg = len(cfg["a_slopes"])
             cfg["nbins"] = {"MS": [ctx.rng.randint(2, 6) for _ in range(nseg)] if ctx.rng.random() < 0.5 else ctx.rng.randint(2 * nseg, 6 * nseg),
                             "WD": ctx.rng.randint(2, 8), "BH": ctx.rng.randint(2, 8)}
+        if ctx.rng.random() < 0.15 and kind == "plain":
+            try:
+                gen.add_edge_age(cfg, ctx.rng)      # an age at which the turn-off mass sits on a bin edge
+            except Exception:
+                pass
         jobs.append({"cfg": cfg, "kind": kind})
     return jobs
